@@ -43,6 +43,10 @@ def handleCase (f : List String) : Except String Verdict := do
     let some ex := hexList ex | throw "expose"
     let some ma := ma.toInt? | throw "maxAge"
     let some me := fromHex me | throw "method"
+    -- domain guard (keeps the shrinker inside the modelled domain): fiber answers unknown methods
+    -- with 501 before any middleware runs
+    if !([b "GET", b "POST", b "OPTIONS", b "DELETE", b "PUT", b "HEAD", b "PATCH"].contains me) then
+      throw "outside-domain: method"
     let some og := fromHex og | throw "origin"
     let some acrm := fromHex acrm | throw "acrm"
     let some acrh := fromHex acrh | throw "acrh"
